@@ -88,6 +88,7 @@ def run(ctx):
         for m in s["mismatches"]:
             ctx.report({"kind": "schedule-dependent:" + m["kind"], "model": m["model"]},
                        "%s/%s GOMAXPROCS=%s %s: %s" % (m["model"], m["backend"], gmp, m["kind"], m["detail"]), m)
+    runwrap.proxy_traces(ctx, 6 if ctx.quick else 60)
     owsim_half(ctx)
     ctx.assumptions += ["the Go race detector generalises each observed execution over all interleavings of the same synchronisation events",
                         "TLC interleavings: <=3 cells, <=2 timesteps, one location per row/timestep"]
